@@ -26,7 +26,10 @@ Pks == { <<>>, <<1>>, <<1, 2>>, <<15, 0, 3>>, <<0, 0, 0, 10>>,
 
 LongVal == Rep(33, 9)
 Vals == { NoVal, InlineVal(<<>>), InlineVal(<<7>>), InlineVal(Rep(32, 2)), InlineVal(Rep(70, 3)),
-          HashedVal(H(LongVal)), HashedVal(H(Rep(40, 1))) }
+          HashedVal(H(LongVal)), HashedVal(H(Rep(40, 1))),
+          (* a hashed value whose preimage is SHORT: the in-memory trie never hashes it itself, but a node loaded from a   *)
+          (* database or a proof (external input) can carry one; flag and body must still agree (seed C07c)                *)
+          HashedVal(H(<<>>)), HashedVal(H(<<7>>)), HashedVal(H(Rep(32, 2))) }
 
 TinyLeaf == EncN(LeafNode(<<>>, InlineVal(<<>>)))              \* 2 bytes
 SmallLeaf == EncN(LeafNode(<<1>>, InlineVal(<<7, 7>>)))         \* 5 bytes
